@@ -22,10 +22,14 @@ def _funcs():
             m.VbsReader.__next__, m.Block1014.write, m.Unblock1014.read, i.dumps, i.loads]
 
 
-def roundtrip(nrec, enc, blocked, cfgs=None, shapes=None, maxvar1=-1, maxrec=False, many=None, closes=1):
+PACKAGED_MAX = 6000
+
+
+def roundtrip(nrec, enc, blocked, cfgs=None, shapes=None, maxvar1=-1, maxrec=False, many=None, closes=1, raise_max=None):
     def h():
         core.FUEL.set(30)
         m = M().mciipm
+        M().config.config['MAX_VBS_RECORD_LENGTH'] = PACKAGED_MAX           # (an obligation that raises it must not leak into the next path)
         f = RopeFile()
         recs = []
         for i in range(nrec):
@@ -38,8 +42,11 @@ def roundtrip(nrec, enc, blocked, cfgs=None, shapes=None, maxvar1=-1, maxrec=Fal
 
         def rp():
             return {'kind': 'roundtrip', 'args': {'msgs': [msg_witness(mm, ee, ev) for mm, ee in recs], 'enc': enc, 'blocked': blocked, 'cfg': cfgs or 'packaged',
-                                                 'many': many, 'closes': closes}}
+                                                 'many': many, 'closes': closes, 'raise_max': raise_max}}
         core.set_fallback(rp, 'C06/concretised')
+        if raise_max:
+            # the application raises the configured maximum record length at run time (after the library was imported)
+            M().config.config['MAX_VBS_RECORD_LENGTH'] = raise_max
         if maxrec:
             # messages up to the configured maximum record length (larger ones cannot be read back by design)
             for msg, _ in recs:
@@ -225,7 +232,11 @@ def obligations(tier):
     for enc, blocked in (('latin_1', True), ('cp500', True), ('cp037', False)):
         obs.append(Ob('rt1-long/%s/%s' % (enc, '1014' if blocked else 'vbs'), roundtrip(1, enc, blocked, shapes=LONG, maxvar1=None), 900,
                       'one long message (shapes %s, every length up to 999 / 992 each: records up to ~4000 bytes over several blocks)' % LONG, _funcs))
+    obs.append(Ob('rt2-long/cp500/1014', roundtrip(2, 'cp500', True, shapes=[[72, 127]], maxvar1=None), 900,
+                  'two long messages (DE72 and DE127 of every length 1..999 each): either may end exactly on a block boundary and the next one crosses the following one', _funcs))
     MAXSHAPE = [[54, 63, 72, 111, 127, 'PDS0001']]
+    obs.append(Ob('rt1-raised-max/cp500/vbs', roundtrip(1, 'cp500', False, shapes=[[54, 63, 72, 111, 127, 'PDS0001', 'PDS0002']], maxvar1=None, raise_max=9000), 1200,
+                  'MAX_VBS_RECORD_LENGTH raised to 9000 at run time: one message of up to ~7000 bytes (five LLLVAR elements and two PDS entries of every length)', _funcs))
     for enc, blocked in ((('cp500', False),) if q else (('cp500', False), ('latin_1', True))):
         obs.append(Ob('rt1-max/%s/%s' % (enc, '1014' if blocked else 'vbs'), roundtrip(1, enc, blocked, shapes=MAXSHAPE, maxvar1=None, maxrec=True), 1200,
                       'one message of up to exactly the maximum record length (6000 bytes): five LLLVAR elements and a PDS entry of every length', _funcs))
